@@ -31,6 +31,7 @@ deriving Repr
 inductive Stop where
   | exit (code : Int)
   | exc
+  | keyError      -- `record_remnants.remove(ident)` for an identifier already removed
 deriving Repr, DecidableEq
 
 /-- name id of the taxon name `unassigned` -/
@@ -167,6 +168,9 @@ def indexSig (o : Opts) (asg : List (String × Lineage)) (st : IdxSt) (sg : Sig)
       match st.db.insert sg ident lineage with
       | (_, .error _) => .error (.exit (-1))
       | (db', .ok _) =>
+        -- `record_remnants.remove(ident)`: a second signature reaching the same spreadsheet row (only possible
+        -- for the empty identifier, which `insert` replaces by `str(sig)`) finds it gone
+        if Gen.idxRemnantsRemoveRaises && !st.remnants.contains ident then .error .keyError else
         .ok { st with db := db', remnants := st.remnants.filter (· ≠ ident),
                       usedIdents := addSet st.usedIdents ident,
                       usedLineages := addSet st.usedLineages lineage }
